@@ -32,6 +32,7 @@ KINDS = os.environ.get("XH_PKINDS", "clcc")
 N = len(KINDS)
 FIX = {(int(e[0]), int(e[1])) for e in os.environ.get("XH_PFIX", "").split(",") if e}
 NO = {(int(e[0]), int(e[1])) for e in os.environ.get("XH_PNO", "").split(",") if e}  # edges forced absent
+REV = os.environ.get("XH_PREV", "0") == "1"  # declare the add_dependency edges in reverse order (a dependency of a literal declared AFTER the literal's own dependents)
 AK = os.environ.get("XH_PAK", "all")  # all: argument-vs-dependency symbolic for every edge into a call | lit: only for edges FROM a literal (call -> call: argument)
 OUT = os.environ.get("XH_POUT", "last")
 PAIRS = [(i, j) for j in range(N) for i in range(j)]
@@ -124,9 +125,9 @@ def c01_prune(e0: bool, e1: bool, e2: bool, e3: bool, e4: bool, e5: bool, e6: bo
             if len(args) >= 2:
                 kw = {"k": args[1]}  # one keyword edge when there are two or more argument edges
             nodes.append(plan.call(mk_fn(j), *pos, **kw))
-    for (i, j), k in edges.items():
-        if k == "d":
-            plan.add_dependency(nodes[i], nodes[j])
+    deps = [(i, j) for (i, j), k in edges.items() if k == "d"]
+    for (i, j) in (reversed(deps) if REV else deps):
+        plan.add_dependency(nodes[i], nodes[j])
     calls = [j for j in range(N) if KINDS[j] == "c"]
     if OUT == "none":
         out, outs = None, []
